@@ -247,4 +247,10 @@ def dropInPlace : List Nat → M Unit
     let e ← readInit i
     tryFinally (dropElem e) (dropInPlace rest)
 
+/-- a `while cond(x) { x = step(x) }` loop as a recursive definition on a fuel argument (the translated
+`Drop for Drain` uses it; running out of fuel is reported as a failed assertion, never silently) -/
+def whileFuel {σ : Type} (cond : σ → Bool) (step : σ → M σ) : Nat → σ → M Unit
+  | 0, x => if cond x then raise (.assert "Drain::drop: fuel exhausted") else pure ()
+  | fuel + 1, x => if cond x then do let x' ← step x; whileFuel cond step fuel x' else pure ()
+
 end CircBuf
